@@ -11,7 +11,7 @@ Observations:
   take   => <code 0..3> <nil|err|unknowncode> cnt=<v>:<ttl-ms>|cnt=-
   ctake  => sorted codes of m concurrent takes, then cnt=…
   allow  => ok|no tok=<v>:<ttl-ms>|tok=- ts=<v>:<ttl-ms>|ts=-
-  callow => <number of grants among instances 0..m-1 calling concurrently> tok=… ts=…
+  callow => <number of grants among instances 0..m-1 calling concurrently> <per-instance 0/1 string> tok=… ts=…
   others => ok
 -/
 import GoZero.Base.Trace
@@ -242,10 +242,24 @@ def runToken (r : Report) (s : Section) : Report := Id.run do
         let mut grants := 0
         let mut specGrants := 0
         let mut allStore := true
+        let mut bits := ""
+        let obsBits := ((l.obs.drop 1).headD "").toList
         for i in [0:m] do
-          let (d', mOk, route, _) := tokAllow c d i ns n none
+          -- while the store is unreachable every instance decides alone: its own observed decision is
+          -- compared (and followed at the float boundary); on the store path the calls are serialised
+          -- by the store in a schedule-dependent order, so only the number of grants is determined
+          let implOk : Option Bool :=
+            if d.up then none else match obsBits[i]? with
+              | some '1' => some true
+              | some '0' => some false
+              | _ => none
+          let (d', mOk, route, bnd) := tokAllow c d i ns n implOk
           d := d'
+          if bnd then
+            r := r.addCover "t-rescue-float-boundary"
+            d := { d with slack := fun j => if j = i then d.slack i + 1 else d.slack j }
           if mOk then grants := grants + 1
+          bits := bits ++ (if mOk then "1" else "0")
           if route ≠ .store then allStore := false
           if d.up then
             let sp := d.bucket.allow rate burst sec n
@@ -253,10 +267,9 @@ def runToken (r : Report) (s : Section) : Report := Id.run do
             if sp.2 then specGrants := specGrants + 1
         r := r.addCover "t-callow"
         let obsG := (l.obs.headD "?")
-        -- concurrent calls on the rescue path are independent per instance; on the store path they are
-        -- serialised by the store: either way the number of grants is determined
-        let model := s!"{grants} {tokDump c d.sys.store}"
-        if model ≠ impl then r := r.mismatch s.idx l.idx model impl
+        let model := if d.up then s!"{grants} {tokDump c d.sys.store}" else s!"{grants} {bits} {tokDump c d.sys.store}"
+        let implCmp := if d.up then joinSp (l.obs.take 1 ++ l.obs.drop 2) else impl
+        if model ≠ implCmp then r := r.mismatch s.idx l.idx model implCmp
         if d.hypOk && d.up then
           if allStore then r := r.addCover "t-callow-store"
           if obsG ≠ toString specGrants then
